@@ -227,4 +227,7 @@ def run(db, chk):
             chk.ob("C03-R3", "[%s] the sweep iterates the reverse of nodes_indices_bottomup()" % uname,
                    bool(rb) and bool(nb), where=fn.ploc, function=fn.bn, construct="topdown-sweep",
                    extra={"unit": uname})
+    chk.absorb(db, "C04", {"C04-S1"}, "C03-R5", "single-direction routing leaves exactly one receiver with "
+               "partition weight one at every update (shared with C04-S1), so that accumulation conserves "
+               "the source", min_instances=100)
     chk.count_scenarios(n_sc, True)
